@@ -52,7 +52,9 @@ def gen_cases(tier, seed):
                     c["nulls"] = F.NULL_PATTERNS[int(rng.integers(0, len(F.NULL_PATTERNS)))]
             steps.append({"frame": fr, "row_group_offsets": [None, 3, 10, [0, 2]][int(rng.integers(0, 4))] if fr["nrows"] > 2 else None,
                           "compression": [None, "SNAPPY", "GZIP", "ZSTD"][int(rng.integers(0, 4))],
-                          "reopen": bool(rng.integers(0, 2))})
+                          "reopen": bool(rng.integers(0, 2)),
+                          # the same columns in another order: accepted by the library (it compares sorted names), must land by name
+                          "column_order_seed": int(rng.integers(1, 2 ** 31)) if (i + j) % 4 == 0 else None})
         base["steps"] = steps
         cases.append(base)
     return cases
@@ -98,6 +100,10 @@ def run_case(case):
                "allnull_object_cols_initially": [str(c) for c in df0.columns if df0[c].dtype == object and (len(df0) == 0 or df0[c].isna().all())]}
         for si, st in enumerate(case["steps"]):
             dfk = D.build_dataset_frame({"frame": st["frame"], "opts": opts})
+            if st.get("column_order_seed"):
+                perm = np.random.default_rng(st["column_order_seed"]).permutation(len(dfk.columns))
+                dfk = dfk[[dfk.columns[i_] for i_ in perm]]
+                counters["appends_with_reordered_columns"] = counters.get("appends_with_reordered_columns", 0) + 1
             for c in dfk.columns:
                 if isinstance(dfk[c].dtype, pd.CategoricalDtype) and list(dfk[c].cat.categories) != list(df0[c].cat.categories):
                     label_change = True
@@ -216,4 +222,4 @@ def run_case(case):
 
 
 def required(tier):
-    return {"appends_verified": 300, "prefix_hashes_compared": 80, "data_files_compared": 300, "audit_events": 500}
+    return {"appends_verified": 300, "prefix_hashes_compared": 80, "data_files_compared": 300, "audit_events": 500, "appends_with_reordered_columns": 30}
